@@ -28,6 +28,8 @@ pub enum Op {
     Call(Outcome, usize),
     Poll(usize),
     Drop(usize),
+    /// the clock moves on by this many ms (requests may take long: more than the 60 s statistic maximum included)
+    Advance(u64),
 }
 
 #[derive(Debug, Clone, Serialize)]
@@ -82,6 +84,16 @@ pub fn decode(u: &mut Bytes) -> Case {
         for op in ops.iter_mut() {
             if let Op::Call(_, r) = op {
                 *r = u.tail_choice(2);
+            }
+        }
+    }
+    // time passes between operations in a third of the cases without a flow rule (whose window needs a standing clock)
+    if flow_cap == 0 && u.tail_choice(3) == 2 {
+        for op in ops.iter_mut() {
+            if let Op::Poll(_) = op {
+                if u.tail_choice(3) == 2 {
+                    *op = Op::Advance([1u64, 400, 1000, 10_000, 59_999, 60_000, 60_001, 600_000][u.tail_choice(8)]);
+                }
             }
         }
     }
@@ -182,7 +194,7 @@ impl Property for C20 {
         }
     }
     fn rule(&self) -> String {
-        "bytes -> SentinelService (Server or Client role, with or without fallback; built by SentinelService::new or by SentinelLayer::layer, optionally cloned) over a scripted inner service; one or two resources chosen per request through the extractor, an isolation rule (threshold 1..3) on the first, an isolation rule or no rule on the second, optionally a flow rule on the first (the clock stands still, so it caps the admissions of the case); 2-29 operations call(outcome in ready Ok / ready Err / pending x j then Ok / pending x j then Err) and poll(any live future, once, no-op waker), so several requests are in flight and complete in a generated order; InFlightModel per resource: admitted <=> Sentinel admits (in-flight + 1 <= T and the flow rule has room) at call(), inner call count +1 iff admitted, rejected => the fallback's answer for that very request or a non-inner Err, an inner Err reaches the caller unchanged, after a future resolves (Ok or Err) the resource's in-flight count is back (the inbound node mirrors Server-role requests and is untouched by Client-role ones), every future resolves, and pass / completion totals equal the admitted requests; futures dropped before completion are generated in a separate class (1/8 of cases) and only reported; non-trivial = >= 1 inner Err followed by a later request at the cap; distinct = distinct decoded cases".into()
+        "bytes -> SentinelService (Server or Client role, with or without fallback; built by SentinelService::new or by SentinelLayer::layer, optionally cloned) over a scripted inner service; one or two resources chosen per request through the extractor, an isolation rule (threshold 1..3) on the first, an isolation rule or no rule on the second, optionally a flow rule on the first (the clock stands still, so it caps the admissions of the case); 2-29 operations advance-clock (a third of the cases without a flow rule; 1 ms .. 10 min incl. 60 000 +- 1 ms), call(outcome in ready Ok / ready Err / pending x j then Ok / pending x j then Err) and poll(any live future, once, no-op waker), so several requests are in flight and complete in a generated order; InFlightModel per resource: admitted <=> Sentinel admits (in-flight + 1 <= T and the flow rule has room) at call(), inner call count +1 iff admitted, rejected => the fallback's answer for that very request or a non-inner Err, an inner Err reaches the caller unchanged, after a future resolves (Ok or Err) the resource's in-flight count is back (the inbound node mirrors Server-role requests and is untouched by Client-role ones), every future resolves, and (clock standing still) pass / completion totals equal the admitted requests; futures dropped before completion are generated in a separate class (1/8 of cases) and only reported; non-trivial = >= 1 inner Err followed by a later request at the cap; distinct = distinct decoded cases".into()
     }
     fn assumptions(&self) -> Vec<String> {
         vec![
@@ -258,6 +270,7 @@ fn run_case(case: &Case) -> Result<(bool, Vec<&'static str>, u64), (String, Stri
     let mut judged = true;
     let (mut inner_err_seen, mut at_cap_after_err, mut n_rej, mut n_flow_rej) = (false, false, 0u64, 0u64);
     let mut used = [false; 2];
+    let (mut advanced, mut long_call) = (false, false);
 
     let check_counts = |inflight: &[u32; 2], judged: bool, what: &str| -> Result<(), (String, String)> {
         if !judged {
@@ -361,6 +374,11 @@ fn run_case(case: &Case) -> Result<(bool, Vec<&'static str>, u64), (String, Stri
                     return Err(("inner-call-count".into(), format!("op {}: inner calls {:?}, expected {:?}", oi, called, expected_calls)));
                 }
             }
+            Op::Advance(ms) => {
+                clock::advance_ms(*ms);
+                advanced = true;
+                if *ms > 60_000 && inflight[0] + inflight[1] > 0 { long_call = true; }
+            }
             Op::Drop(k) => {
                 if live.is_empty() {
                     continue;
@@ -396,7 +414,7 @@ fn run_case(case: &Case) -> Result<(bool, Vec<&'static str>, u64), (String, Stri
     }
     check_counts(&inflight, judged, "after all futures resolved")?;
     // completions are recorded once per admitted request (exit happened, and only once)
-    if judged {
+    if judged && !advanced {
         for k in 0..2 {
             if let Some(node) = stat::get_resource_node(&names[k]) {
                 use sentinel_core::base::{MetricEvent, ReadStat};
@@ -425,6 +443,8 @@ fn run_case(case: &Case) -> Result<(bool, Vec<&'static str>, u64), (String, Stri
     if used[0] && used[1] { classes.push(if case.threshold2 > 0 { "two-resources-two-rules" } else { "two-resources-one-unruled" }); }
     if case.flow_cap > 0 { classes.push("flow-rule-too"); }
     if n_flow_rej > 0 { classes.push("rejected-by-flow-rule"); }
+    if advanced { classes.push("clock-advances"); }
+    if long_call { classes.push("request-in-flight-longer-than-60s"); }
     if dropped > 0 { classes.push("future-dropped-before-completion"); }
     if n_rej > 0 { classes.push("has-rejection"); }
     if inner_err_seen { classes.push("inner-error"); }
